@@ -243,6 +243,32 @@ Fixpoint anyof_negative_numbers (branches : list (list nkey)) (seen : list pynum
 Definition conforms (keys : list nkey) (v : pynum) : bool := forallb (fun k => negb (violates k v)) keys.
 
 
+(* _cover_positive_for_type, keys anyOf / oneOf (coverage.py:266-271): the positive values of every branch in
+   turn, each branch through its own cover_schema_iter (own seen set); the sibling branches are not consulted *)
+Fixpoint combined_positive_numbers (branches : list num_schema) (gen_ok : bool) : list (nat * nitem) :=
+  match branches with
+  | [] => []
+  | b :: r =>
+    map (fun it => (O, it)) (fst (positive_number_plan b gen_ok))
+    ++ map (fun x => (S (fst x), snd x)) (combined_positive_numbers r gen_ok)
+  end.
+(* JSON-Schema validity under anyOf (some branch) and oneOf (exactly one branch) *)
+Definition anyof_valid (branches : list num_schema) (v : Z) : bool := existsb (fun b => num_valid b v) branches.
+Definition count_valid (branches : list num_schema) (v : Z) : nat := length (filter (fun b => num_valid b v) branches).
+Definition oneof_valid (branches : list num_schema) (v : Z) : bool := Nat.eqb (count_valid branches v) 1.
+(* region of the oneOf statement: v conforms to no branch other than the i-th *)
+Fixpoint others_reject (branches : list num_schema) (i : nat) (v : Z) : bool :=
+  match branches with
+  | [] => true
+  | b :: r =>
+    match i with
+    | O => forallb (fun b' => negb (num_valid b' v)) r
+    | S j => negb (num_valid b v) && others_reject r j v
+    end
+  end.
+Definition branch_in_regions (b : num_schema) : bool :=
+  numeric_exclusive b && exclusive_dominates b && multiple_satisfiable b.
+
 (* ====================================================================== *)
 (* Part 2: string lengths and array sizes                                  *)
 (* ====================================================================== *)
@@ -322,15 +348,21 @@ Inductive adesc := AValid | ANear | AMaximum.
 Definition aitem := (adesc * option Z * option Z)%type.
 
 (* coverage.py:648-705; L = len(template), the foreign-drawn template array.
-   The template itself is the item (AValid, L, L). *)
-Definition array_plan (s : arr_schema) (L : Z) : list aitem :=
+   The template itself is the item (AValid, L, L).
+   The upper-bound guard of the near-boundary size minItems + 1 is a parameter: the code tests
+   max_items is None (upper_absent_is_none); the truthiness idiom not max_items that _positive_string
+   uses for maxLength (upper_absent_falsy) also takes maxItems 0 for an absent bound.  _positive_string
+   gets away with it because it turns minLength 0 into None first; _positive_array has no such step. *)
+Definition upper_absent_is_none (mx : option Z) : bool := match mx with None => true | Some _ => false end.
+Definition upper_absent_falsy (mx : option Z) : bool := negb (truthy mx).
+Definition array_plan_with (absent : option Z -> bool) (s : arr_schema) (L : Z) : list aitem :=
   let head := if a_authored s then [] else [(AValid, Some L, Some L)] in
   let seen := [L] in
   let '(mid, seen1) :=
     match a_min s with
     | Some mn =>
       let larger := mn + 1 in
-      if negb (inb larger seen) && (match a_max s with None => true | Some M => larger <=? M end)
+      if negb (inb larger seen) && (absent (a_max s) || match a_max s with None => true | Some M => larger <=? M end)
       then ([(ANear, Some larger, Some larger)], larger :: seen) else ([], seen)
     | None => ([], seen)
     end in
@@ -346,6 +378,17 @@ Definition array_plan (s : arr_schema) (L : Z) : list aitem :=
     | None => []
     end in
   head ++ mid ++ tail.
+(* the code as it is *)
+Definition array_plan : arr_schema -> Z -> list aitem := array_plan_with upper_absent_is_none.
+(* regression sentinel: the same planner with the truthiness guard (not the code) *)
+Definition array_plan_falsy_max : arr_schema -> Z -> list aitem := array_plan_with upper_absent_falsy.
+
+(* what the foreign generator may return for a request (lo, hi): an array whose size n lies in it
+   (the contract of ctx.generate_from_schema); arr_size_valid = minItems <= n <= maxItems *)
+Definition size_in_request (lo hi : option Z) (n : Z) : bool :=
+  (0 <=? n) && (match lo with Some l => l <=? n | None => true end) && (match hi with Some h => n <=? h | None => true end).
+Definition arr_size_valid (s : arr_schema) (n : Z) : bool :=
+  (0 <=? n) && (match a_min s with Some mn => mn <=? n | None => true end) && (match a_max s with Some M => n <=? M | None => true end).
 
 (* ====================================================================== *)
 (* Part 3: case labels (_iter_coverage_cases + Template)                   *)
